@@ -72,6 +72,19 @@ def classify(exprs, p):
             # the other half of the same defect: a damaged / simplified
             # (fp ...) term is put back to a default constant
             return 'constants-at-fp-term'
+    if p.mutator == 'EliminateVariable':
+        # a variable is replaced by a term that depends on it through the
+        # definition of a defined function
+        m = idmap(exprs)
+        through = False
+        for k, r in p.keys.items():
+            t = m[k][0] if isinstance(k, int) and k in m else k
+            if isinstance(t, int) or r is None or isinstance(r, tuple):
+                continue
+            if depends_through_definition(r, t):
+                through = True
+        if through:
+            return 'ev-through-definition'
     if p.mutator == 'EliminateVariable' and p.kind.startswith('ddmin'):
         # a ddmin group merges the first proposal of several equalities into
         # one simultaneous substitution
@@ -83,6 +96,27 @@ def classify(exprs, p):
         if len(targets) > 1:
             return 'ev-ddmin-group-simultaneous'
     return None
+
+
+def depends_through_definition(term, var):
+    """Does ``term`` mention ``var`` via the definition of a defined
+    function (tables of the current state)?"""
+    from ddsmt import nodes, smtlib
+    todo = []
+    seen = set()
+    for n in nodes.dfs(term):
+        if n.is_leaf() and smtlib.is_defined_fun(n) and n.data not in seen:
+            seen.add(n.data)
+            todo.append(smtlib.get_defined_fun(n))
+    while todo:
+        for n in nodes.dfs(todo.pop()):
+            if n == var:
+                return True
+            if n.is_leaf() and smtlib.is_defined_fun(n) and \
+                    n.data not in seen:
+                seen.add(n.data)
+                todo.append(smtlib.get_defined_fun(n))
+    return False
 
 
 def run_unit(unit):
@@ -100,7 +134,9 @@ def run_unit(unit):
 
     s = graph.Search(argv, depth=depth if regime == 'depth' else None,
                      max_states=cap, on_proposal=on_proposal,
-                     classify=classify)
+                     classify=classify,
+                     history_check=150 if (regime, mode) == ('closure', 'inc')
+                     else 0)
     try:
         common.reset_ids(0)
         s.run(graph.parse(text))
@@ -123,6 +159,14 @@ def run_unit(unit):
                          f'{node!r} leaves the input unchanged: {state!r}',
                 'seed': text, 'state': state, 'argv': argv,
                 'regime': regime})
+    # KF-C03-7: states that exist only because EliminateVariable replaced a
+    # variable by a term depending on it through a definition contain a
+    # recursive define-fun; what happens from there on is that finding's
+    if any('ev-through-definition' in ks for ks in s.kf_edges.values()):
+        gone = s.drop_states_only_reachable_through('ev-through-definition')
+        common.pcount(part, 'states_behind_a_known_finding_edge', gone)
+        common.pviolation(part, f'cycle-known|ev-through-definition|{name}',
+                          None, kf='ev-through-definition')
     clean = s.cycles(clean_only=True)
     if not clean:
         # KF-C03-1 is about ReplaceByVariable *together with* a substituting
@@ -130,7 +174,7 @@ def run_unit(unit):
         # mutators' edges are removed instead of ReplaceByVariable's
         clean = s.cycles_without(SUBSTITUTING, also=(
             'constants-inside-fp-constant', 'constants-at-fp-term',
-            'ev-ddmin-group-simultaneous'))
+            'ev-ddmin-group-simultaneous', 'ev-through-definition'))
     if not clean:
         # every cycle of the explored graph runs through an edge that only
         # exists because of a known finding
@@ -153,6 +197,21 @@ def run_unit(unit):
                              for k, l in cyc[:6]),
                 'seed': text, 'cycle': [[k, list(l) if l else None]
                                         for k, l in cyc], 'argv': argv,
+                'regime': regime})
+    common.pcount(part, 'states_rechecked_with_fresh_mutator_instances',
+                  s.history_checked)
+    for state, extra, missing in s.history_mismatches:
+        who = sorted(set(m for m, _ in extra + missing))
+        common.pviolation(
+            part, f'history-dependent|{"+".join(who)}|{name}', {
+                'brief': f'proposals of {who} depend on what the mutator '
+                         f'instances saw before: at {state!r} the long-lived '
+                         f'instances additionally propose '
+                         f'{[k for _, k in extra]!r} and lack '
+                         f'{[k for _, k in missing]!r} compared with fresh '
+                         'instances (the chain of accepted inputs is then '
+                         'not a path of a fixed rewrite graph)',
+                'seed': text, 'state': state, 'argv': argv,
                 'regime': regime})
     for state, mut, stage, node in hangs:
         common.pviolation(
